@@ -11,13 +11,13 @@ for line in open(os.path.join(ROOT, "properties.jsonl")):
 CLAIMED = {
  "C16": ("TLA+ model of Tokenizer::next checked by TLC (invariants, action property, liveness) + replay of every enumerated behaviour and random strings through the real tokenizer + TLC trace validation against TokenizerAbs",
          "Bounded-exhaustive model checking of the tokenizer automaton (all strings over the 12-symbol token alphabet up to the tier's length, safety + termination under weak fairness), bound to the code in both directions: each enumerated input and seeded random Unicode strings are tokenised by the real crate and TLC accepts the recorded token lists only if they satisfy the property-level specification TokenizerAbs; equality with the implementation-level model is reported as impl_model_exact.",
-         "Trusted: TLC, the JSON reader, the harness's copy of observations. Termination of the real code is observed by watchdog, not proved.",
+         "Trusted: TLC, TLAPS (TokenizerProof.tla: for every input length, scanner progress implies lossless and terminating iteration; the progress premise is the TLC-checked invariant ScannerAdvances), the JSON reader, the harness's copy of observations. Termination of the real code is observed by watchdog, not proved.",
          "§5 C16, Appendix B"),
- "C17": ("TLA+ transcription of the escape replace-chain and the unescape automaton; invariant RoundTrip checked by TLC over all words of the escape alphabets; every enumerated word and random Unicode strings replayed through the real escape_string/unescape_string and validated by TLC",
+ "C17": ("TLA+ transcription of the escape replace-chain and the unescape automaton; invariant RoundTrip checked by TLC over all words of the escape alphabets and all words of at most two ASCII characters; every enumerated word and random Unicode strings replayed through the real escape_string/unescape_string and validated by TLC",
          "Bounded-exhaustive model checking of the modelled escape chain (order of passes is part of the model) and unescape automaton, bound to the code by replaying every enumerated string and seeded random strings through the three real backends; TLC accepts a record only if unescape(escape(s)) = s, and reports whether the real output equals the modelled one.",
          "Trusted: TLC, JSON reader, harness copying results. String length beyond the bounds is covered only by random replay.",
          "§5 C17"),
- "C03": ("Engine lexical rules (MySQL, PostgreSQL, SQLite) written in TLA+ from the manuals; TLC checks on the modelled escaping that every literal is one token decoding to the value, generates the strings, and validates the recorded output of the real value_to_string and of 19 inlining positions token-by-token; the real SQLite engine is authoritative for the SQLite dialect",
+ "C03": ("Engine lexical rules (MySQL, PostgreSQL, SQLite) written in TLA+ from the manuals; TLC checks on the modelled escaping that every literal is one token decoding to the value, generates the strings, and validates the recorded output of the real value_to_string and of 20 inlining positions (incl. the elements of a PostgreSQL array literal) token-by-token; the real SQLite engine is authoritative for the SQLite dialect",
          "Model checking of `Impl => R` on the escape model over the escape-relevant alphabets, plus trace validation of the real code: for every enumerated/random string and byte string TLC lexes the recorded literal with the engine's rules (single token, decoded value equals input) and, for literals embedded in query/schema statements, requires that no other token of the statement depends on the value (injection safety). SQLite renderings are additionally executed on the real engine.",
          "Trusted: the MySQL/PostgreSQL lexical models (no engine available), TLC, SQLite 3.40.1. NUL excluded on PostgreSQL/SQLite.",
          "§5 C03, Appendix C.1"),
@@ -30,27 +30,27 @@ CLAIMED = {
          "Trusted: the documented precedence/associativity tables as transcribed (MySQL's finer yacc operand classes not modelled); TLC; SQLite engine for the SQLite dialect.",
          "§5 C05, Appendix C.2"),
  "C06": ("src/query/condition.rs as a TLA+ state machine (holder contents + history of supplied conditions, one action per cond_where/and_where call); TLC explores all call histories over a supplied set and all depth-2 single conditions, checking under all 27 three-valued assignments that the modelled rendering means the AND of what was given; the histories are replayed on SELECT/HAVING/UPDATE/DELETE/JOIN ON/CASE/ON CONFLICT and every intermediate real rendering is parsed and evaluated by TLC; SQLite truth tables from the real engine",
-         "Model checking of the condition-holder state machine (merge / wrap / single-member unwrapping rules, to_simple_expr fold, parenthesis dropping) against a Kleene-logic definition of what the supplied conditions mean, plus trace validation of the real code on every enumerated history and random deeper ones, at every step of the history and in seven clause positions; on SQLite the rendered statement is executed over a table holding all 27 assignments and the returned rows must be the demanded ones.",
+         "Model checking of the condition-holder state machine (merge / wrap / single-member unwrapping rules, to_simple_expr fold, parenthesis dropping) against a Kleene-logic definition of what the supplied conditions mean, plus trace validation of the real code on every enumerated history and random deeper ones, at every step of the history and in thirteen places (WHERE / HAVING with and without GROUP BY / UPDATE with one and two FROM tables / DELETE / JOIN ON / CASE WHEN / ON CONFLICT target and action through their three spellings / statements handed over by take()), with not() called up to three times on a condition; on SQLite the rendered statement is executed over a table holding all 27 assignments and the returned rows must be the demanded ones.",
          "Trusted: TLC; Kleene semantics of AND/OR/NOT/=/<>/IS; the expression parser of C05; SQLite engine.",
          "§5 C06, Appendix A"),
  "C10": ("src/query/insert.rs as a TLA+ state machine (columns / source / default_values; one action per public call); TLC explores every call history up to the tier's length with an invariant on Results, an action property on rejected calls and a rendering-vs-accepted-rows check; all histories are replayed step by step on the real InsertStatement and validated by TLC against the property-level reading of the history",
-         "Model checking of the insert builder over all call sequences (23 actions, length <= 3 quick / <= 4 thorough) and trace validation of the real builder on the same histories plus random longer ones: per step the Result (both counts), `stmt == clone` after a rejection, and the parsed VALUES list of all three renderings against the rows the history has had accepted.",
+         "Model checking of the insert builder over all call sequences (25 actions, length <= 3 quick / <= 4 thorough; rows handed over as a Vec, as an iterator whose size_hint overestimates and as one without a size hint) and trace validation of the real builder on the same histories plus random longer ones: per step the Result (both counts), `stmt == clone` after a rejection, and the parsed VALUES list of all three renderings against the rows the history has had accepted.",
          "Trusted: TLC; the INSERT parser of Insert.tla. Known findings: columns() re-declared after rows; zero-column rows (see known_findings.json).",
          "§5 C10"),
  "C11": ("CustomWithExpr token loop and inject_parameters transcribed in TLA+ over the Tokenizer model; property-level TemplateAbs defines placeholders independently; TLC checks impl = abs on every template assembled from <= 3/4 items, generates them, and validates the recorded expansions (inline, parameterised, bound values, inject_parameters) of the real code",
-         "Model checking of the template expansion loop against an independent definition of 'placeholder outside quoted text' for every template over an 18-item alphabet (quoted literals with embedded marks, doubled marks, $n, lone marks, adjacency cases), plus trace validation of the real cust_with_values / inject_parameters on the same templates and random Unicode ones: output text must be the template with exactly the designated values substituted, bound values in emission order.",
+         "Model checking of the template expansion loop against an independent definition of 'placeholder outside quoted text' for every template over an 18-item alphabet (quoted literals with embedded marks, doubled marks, $n, lone marks, adjacency cases), plus trace validation of the real cust_with_values / cust_with_expr / cust_with_exprs / inject_parameters on the same templates and random Unicode ones: output text must be the template with exactly the designated values substituted, bound values in emission order.",
          "Trusted: TLC; the stated domain restrictions (PostgreSQL `$` glued to word characters; literal marks produced by doubled marks for inject). Known finding: lone `$` on PostgreSQL.",
          "§5 C11"),
- "C01": ("Writer.tla (SqlWriterValues as Write/PushParam actions, inductive invariant on counter/values/placeholders) and Stmt.tla (statement builders as state machines + the clause-emission order of prepare_*_statement with all backend overrides) checked by TLC over the pairwise-complete clause product; the same statements replayed on the real crate with the public SqlWriter trait recording the event stream; TLC validates events, placeholder lexing and bound-value order against StmtLaw!BoundOrder",
+ "C01": ("Writer.tla (SqlWriterValues as Write/PushParam actions; the invariant on counter/values/placeholders checked by TLC and proved inductive without bounds by TLAPS in WriterProof.tla) and Stmt.tla (statement builders as state machines + the clause-emission order of prepare_*_statement with all backend overrides) checked by TLC over the pairwise-complete clause product; the same statements replayed on the real crate with the public SqlWriter trait recording the event stream; TLC validates events, placeholder lexing and bound-value order against StmtLaw!BoundOrder",
          "Model checking of the writer automaton and of the statement renderer model (C01 invariants on every enumerated statement x 3 backends), plus trace validation of the real renderer: the recorded write/push_param events must be a behaviour of Writer.tla, the engine lexer must find exactly n placeholders (PostgreSQL $1..$n ascending), and the bound values must be the values given, in the order the dialect's grammar places their clauses (values are distinct tags).",
-         "Trusted: TLC; EngineLex; the per-dialect clause order of StmtLaw.tla (Appendix C.3).",
+         "Trusted: TLC; TLAPS (tlapm) for the unbounded writer invariant; EngineLex; the per-dialect clause order of StmtLaw.tla (Appendix C.3).",
          "§5 C01"),
  "C02": ("Stmt.tla renders every statement with a String writer and with SqlWriterValues (ToParams); TLC checks token-for-token equality modulo literal substitution on the model and on the recordings of the real crate for all entry points; both forms executed on the real SQLite",
-         "Model checking (RenderInline vs RenderParams on every enumerated statement) plus trace validation of the real code: Lex(to_string) must equal Lex(build.sql) with each placeholder replaced by the tokens of the backend literal of the bound value; build, build_any, build_collect, build_collect_any, to_string twice and build_collect(String) must agree; the statement must equal its clone after rendering; on SQLite both forms are executed over the fixture and must return the same rows and table contents.",
+         "Model checking (RenderInline vs RenderParams on every enumerated statement) plus trace validation of the real code: Lex(to_string) must equal Lex(build.sql) with each placeholder replaced by the tokens of the backend literal of the bound value; build, build_any, build_collect, build_collect_any, build_collect_any_into (both writers), to_string twice and build_collect(String) must agree; the statement must equal its clone after rendering; on SQLite both forms are executed over the fixture and must return the same rows and table contents.",
          "Trusted: TLC; EngineLex; SQLite 3.40.1. Numeric literals are compared as text.",
          "§5 C02"),
  "C12": ("Conversion matrix of src/value.rs as a TLA+ decision table (Value.tla); TLC checks the round-trip / NULL / wrong-type laws on every (source type, target type, Option?, NULL?) cell and emits the cells; each cell is executed on the real crate with per-type payload pools, plus tuples of arity 1..12 and identity sweeps; TLC validates every recorded outcome against the table",
-         "Model checking of the conversion table (4160 cells over 32 source / 33 target types) and trace validation of the real From / ValueType::try_from / Option<T> / IntoValueTuple / FromValueTuple / as_null / dummy_value on every cell with concrete payloads (boundaries, float specials, chars across planes, feature types); exhaustive identity sweeps for 8/16-bit types, strided for 32-bit, f32 bit patterns and chars.",
+         "Model checking of the conversion table (4692 cells over 33 source / 34 target types, DateTime<Local> and pgvector::Vector included) and trace validation of the real From / ValueType::try_from / Option<T> / IntoValueTuple / FromValueTuple / as_null / dummy_value on every cell with concrete payloads (boundaries, float specials, chars across planes, feature types); exhaustive identity sweeps for 8/16-bit types, strided for 32-bit, f32 bit patterns and chars.",
          "Trusted: TLC; payload identity is observed through Debug text / bit patterns in the harness — the TLA+ content is the matrix (see DESIGN §5 C12).",
          "§5 C12"),
  "C15": ("Two-register SelectStatement state machine in TLA+ (Take.tla over the Stmt.tla builder model: take, clone, clear/reset, calls on either register) explored by TLC with invariants and a non-interference action property; all histories replayed on the real builder with ==, renderings and clause-free reference statements recorded per step; validated by TLC",
@@ -58,7 +58,7 @@ CLAIMED = {
          "Trusted: TLC; the crate's PartialEq as the notion of statement equality (Debug text for the schema statements, which have no PartialEq).",
          "§5 C15"),
  "C18": ("hashable_value's hand-written Eq/Hash as an abstract relation over named payload classes (ValueEq.tla); TLC checks reflexivity, symmetry, transitivity, variant separation and Eq => equal hash key on all triples of the pool; every pair of the real pool is compared (==, Hash, HashSet, ValueTuple) and validated by TLC, symmetry/transitivity also on the recorded matrix",
-         "Model checking over all 79^3 triples of the abstract pool plus trace validation of the real Value::eq / Hash on the full 79 x 79 matrix (every variant incl. feature types, NULLs, +0/-0, NaN payloads, JSON key order, decimal scales, arrays and nested arrays).",
+         "Model checking over all 111^3 triples of the abstract pool plus trace validation of the real Value::eq / Hash on the full 111 x 111 matrix (every variant incl. all chrono / time / decimal / uuid / network / vector types, NULLs, +0/-0, NaN payloads, JSON key order, decimal scales, one instant in two UTC offsets, arrays and nested arrays), and of value tuples of the same content in their One / Two / Three and Many representations (==, Hash, HashSet membership).",
          "Trusted: TLC; the payload-class table of ValueEq.tla; std's DefaultHasher as the fixed hasher.",
          "§5 C18"),
  "C07": ("Clause-level SQLite grammar in TLA+ (EngineGrammar) parses the real SQLite rendering of every generated statement against Expected(builder state); TLC also prints RefStmt, an independently written fully explicit rendering of the same builder state; inline form, parameterised form and reference are executed on the real SQLite over a fresh fixture and must return the same rows and leave the same tables",
@@ -70,16 +70,16 @@ CLAIMED = {
          "Trusted: the transcribed MySQL 8.0 / PostgreSQL 15 grammars (no engine available; permissive where the manuals are silent). Several known findings (named WINDOW clause, WITH before INSERT, ON DUPLICATE KEY IGNORE, dropped second JOIN table).",
          "§5 C08, Appendix C.3"),
  "C09": ("Portable(s) feature subset and a token-level transliteration MySQL/PostgreSQL -> SQLite spelling in TLA+ (Portable.tla); TLC requires token equality of the transliterated renderings with the SQLite rendering; the three texts are executed on the real SQLite and must agree",
-         "Trace validation over the portable part of the TLC-generated statement space: after translating nothing but lexical spelling and the documented function substitutions the MySQL and PostgreSQL renderings must be token-equal to the SQLite rendering (MySQL NULLS emulation excepted), and inline and parameterised forms of all three, executed on SQLite over the fixture, must return identical rows and table contents — which validates the NULLS FIRST/LAST emulation.",
+         "Trace validation over the portable part of the TLC-generated statement space: after translating nothing but lexical spelling and the documented function substitutions the MySQL and PostgreSQL renderings must be token-equal to the SQLite rendering (MySQL NULLS emulation excepted), and inline and parameterised forms of all three, executed on SQLite over the fixture, must return identical rows and table contents — which validates the NULLS FIRST/LAST emulation; each rendering is also judged on its own: its placeholders must match its bound values, and it must denote the built statement under its own dialect's grammar (the C07 / C08 re-parse applied to the portable statements, where the engines' precedence tables differ).",
          "Trusted: SQLite as execution proxy for the transliterated MySQL/PostgreSQL texts (engine-specific semantics not observed); TLC; Portable(s).",
          "§5 C09"),
  "C13": ("SqliteCatalog.tla: the database catalogue as a state machine stepped by the declared schema statements (SQLite's affinity rules, rowid-alias rule, automatic indexes, PRAGMA shapes); TLC generates the declaration space; the real SQLite executes the crate's renderings and its PRAGMA dumps are validated by TLC against the model state after every step",
-         "Trace validation with the real engine in the loop: for every generated declaration history (40 column types x 20 specification lists x table-level keys / indexes / foreign keys / checks x follow-up ALTER / INDEX / RENAME / DROP statements) the SQLite rendering must execute, and the engine's own catalogue (columns, nullability, defaults, primary key positions, constraint indexes, explicit indexes with direction / uniqueness, foreign keys with actions, AUTOINCREMENT, checks, type affinity) must equal the catalogue model stepped on the declarations.",
-         "Trusted: SQLite 3.40.1 PRAGMA output; TLC; the catalogue rules in SqliteCatalog.tla (they are compared with the engine on every run). No implementation-level model of the DDL renderer.",
+         "Trace validation with the real engine in the loop: for every generated declaration history (40 column types x 20 specification lists x table-level keys / indexes / foreign keys / checks x follow-up ALTER / INDEX / RENAME / DROP statements) the SQLite rendering must execute, and the engine's own catalogue (columns, nullability, defaults, primary key positions, constraint indexes, explicit indexes with direction / uniqueness / partial predicate (parsed from sqlite_master.sql), foreign keys with actions, AUTOINCREMENT, checks, type affinity) must equal the catalogue model stepped on the declarations.",
+         "Trusted: SQLite 3.40.1 PRAGMA output; TLC; the catalogue rules in SqliteCatalog.tla (they are compared with the engine on every run). The implementation-level model of the DDL renderers (Schema.tla) is reported as impl_model_exact and never decides.",
          "§5 C13, Appendix C.4"),
  "C14": ("EngineDDL.tla: DDL grammars and data-type tables of MySQL and PostgreSQL; SchemaLaw!DdlReasons compares the parsed rendering with the declaration; TLC generates the declaration space and validates every recorded MySQL / PostgreSQL rendering",
-         "Trace validation of the MySQL / PostgreSQL renderings of the TLC-generated declaration histories: CREATE TABLE elements in declaration order with one dialect-defined type per column (parameters / UNSIGNED / serial types) and each specification once, table-level indexes / foreign keys / checks, ALTER TABLE actions complete and correctly separated (PostgreSQL's per-specification sub-clauses), index / foreign-key / type statements in the dialect's form.",
-         "Trusted: the transcribed MySQL 8.0 / PostgreSQL 15 DDL grammars and type tables (no engine available); TLC. Table options are not compared.",
+         "Trace validation of the MySQL / PostgreSQL renderings of the TLC-generated declaration histories: CREATE TABLE elements in declaration order with one dialect-defined type per column (parameters / UNSIGNED / serial types) and each specification once, table-level indexes (with MySQL prefix lengths and index types) / foreign keys (named and unnamed) / checks, MySQL table options (COMMENT / ENGINE / COLLATE / CHARSET, each once), ALTER TABLE actions complete and correctly separated (PostgreSQL's per-specification sub-clauses), index / foreign-key / type statements in the dialect's form.",
+         "Trusted: the transcribed MySQL 8.0 / PostgreSQL 15 DDL grammars and type tables (no engine available); TLC. MCSchema checks the implementation-level renderer model (Schema.tla) against the same grammars without the implementation.",
          "§5 C14"),
  "C19": ("Derive.tla: the derive macros as a function from a type definition to the names its values spell — word boundaries stated position by position (property level), a transcription of heck's scanner and of the generated fast-path predicate (implementation level), the attribute table; TLC checks scanner = stated boundaries and fast path sound/tight on all words, builds the type definitions step by step; the definitions are compiled with the real proc-macros against /repo and every value's to_string / prepare / as_str is validated by TLC",
          "Bounded-exhaustive model checking (all identifiers up to the tier's length over {A B a 1 _}, all name strings over an alphabet with quote characters, all type definitions up to the tier's variant count, simulated larger ones) bound to the code by compiling each generated definition with the real Iden / IdenStatic / enum_def macros and validating the observed names and quoted texts (three quote styles incl. the asymmetric [ ]) against the attribute table and the general identifier quoting; a definition whose expansion does not compile is a violation.",
@@ -122,6 +122,7 @@ def main():
         },
         "engines": [
             {"name": "tlc", "path": "/opt/veriftools/tla/tla2tools.jar", "serves_properties": sorted(CLAIMED), "kind_free_text": "explicit-state model checker for the TLA+ specifications in /verif/spec (design checks, case generation, trace validation)"},
+            {"name": "tlapm", "path": "/opt/veriftools/tlapm (tlapm on PATH)", "serves_properties": ["C01", "C16"], "kind_free_text": "TLA+ proof system: unbounded proofs of the writer invariant (WriterProof.tla) and of lossless / terminating token iteration (TokenizerProof.tla)"},
             {"name": "sqlite3", "path": "python3 sqlite3 module (SQLite 3.40.1)", "serves_properties": [p for p in ["C02","C03","C04","C05","C06","C07","C09","C13"] if p in CLAIMED], "kind_free_text": "real SQLite engine used as authority for SQLite-dialect questions"},
         ],
         "checks": checks,
